@@ -320,6 +320,8 @@ fn dec_value(bytes: &[u8], idx: &mut usize) -> Result<Value> {
         }
         4 => {
             let len = read_len(bytes, idx, info)? as usize;
+            // Every element occupies at least one byte: bound the pre-allocation by the input.
+            need(bytes, *idx, len)?;
             let mut items = Vec::with_capacity(len);
             for _ in 0..len {
                 items.push(dec_value(bytes, idx)?);
@@ -328,6 +330,8 @@ fn dec_value(bytes: &[u8], idx: &mut usize) -> Result<Value> {
         }
         5 => {
             let len = read_len(bytes, idx, info)? as usize;
+            // Every entry occupies at least two bytes (key + value): bound the pre-allocation by the input.
+            need(bytes, *idx, len.checked_mul(2).ok_or(CanonError::Incomplete)?)?;
             let mut entries = Vec::with_capacity(len);
             let mut last_key: Option<Vec<u8>> = None;
             for _ in 0..len {
